@@ -3,8 +3,10 @@ package main
 import (
 	"fmt"
 
+	"go/types"
+	"strings"
+
 	"golang.org/x/tools/go/ssa"
-	"golang.org/x/tools/go/ssa/ssautil"
 )
 
 type ssaFunc = ssa.Function
@@ -16,11 +18,46 @@ func (i *interpreter) findFuncByName(name string) *ssa.Function {
 	defer fnInfoMu.Unlock()
 	if allFuncsCache == nil {
 		allFuncsCache = map[string]*ssa.Function{}
-		for fn := range ssautil.AllFunctions(i.prog) {
-			allFuncsCache[fn.String()] = fn
+	}
+	if f, ok := allFuncsCache[name]; ok {
+		return f
+	}
+	var found *ssa.Function
+	var visit func(fn *ssa.Function)
+	visit = func(fn *ssa.Function) {
+		if fn == nil || found != nil {
+			return
+		}
+		if fn.String() == name {
+			found = fn
+			return
+		}
+		for _, a := range fn.AnonFuncs {
+			visit(a)
 		}
 	}
-	return allFuncsCache[name]
+	for _, pkg := range i.prog.AllPackages() {
+		if !strings.Contains(name, pkg.Pkg.Path()) {
+			continue
+		}
+		for _, m := range pkg.Members {
+			switch m := m.(type) {
+			case *ssa.Function:
+				visit(m)
+			case *ssa.Type:
+				for _, t := range []types.Type{m.Type(), types.NewPointer(m.Type())} {
+					ms := i.prog.MethodSets.MethodSet(t)
+					for k := 0; k < ms.Len(); k++ {
+						if strings.Contains(name, ms.At(k).Obj().Name()) {
+							visit(i.prog.MethodValue(ms.At(k)))
+						}
+					}
+				}
+			}
+		}
+	}
+	allFuncsCache[name] = found
+	return found
 }
 
 // uptr models the result of unsafe.SliceData / unsafe.StringData: it keeps
